@@ -84,6 +84,10 @@ def rule_w1(ctx, F):
     ctx.analysed["locals_with_std_hasher_maps"] = len(rs_types)
 
 
+import re as _re2
+_re_lt = _re2.compile(r"\(\w+ < ")
+
+
 class VetMonitor(Monitor):
     """Merge-join discipline of states_conflict: every advance of a cursor (i/j) happens only
     after the entry it consumes was vetted (conflict predicate returned false) in this iteration."""
@@ -103,7 +107,7 @@ class VetMonitor(Monitor):
             txt, t = cond_text(self.fn, cond, truth)
             if any(n in txt for n in self.needles):
                 return 1 if t is False else 0
-            if "(i <" in txt or "(j <" in txt or " < len" in txt:
+            if _re_lt.search(txt):
                 return 0   # loop head: a new iteration starts unvetted
         return m
 
@@ -119,10 +123,28 @@ def user_assigns(fn, name):
     return out
 
 
+def self_increments(fn):
+    """Points where a user variable is advanced by one (`v = v + 1`): the merge-join cursors."""
+    out = []
+    for pt, e in fn.points():
+        for n in own_walk(e):
+            if n.get("k") == "assign" and strip(n["l"]).get("k") == "ref" and not str(strip(n["l"])["name"]).startswith("_"):
+                v = strip(n["l"])["id"]
+                d = strip(n["r"])
+                # MIR: v = move (_tmp.0) with _tmp = AddWithOverflow(copy v, 1)
+                src = d
+                if src.get("k") == "mem" and strip(src["b"]).get("k") == "ref":
+                    dd = fn.single_def(strip(src["b"])["id"])
+                    src = strip(dd) if dd is not None else src
+                if src.get("k") == "bin" and src["op"] == "+" and strip(src["l"]).get("k") == "ref" and strip(src["l"])["id"] == v and strip(src["r"]).get("v") == 1:
+                    out.append(pt)
+    return out
+
+
 def rule_g1(ctx, F):
     fn = find_fn(ctx, F, "Minimizer::states_conflict", "G1")
     if fn:
-        adv = user_assigns(fn, "i") + user_assigns(fn, "j")
+        adv = self_increments(fn)
         ctx.floor("cursor advances in states_conflict", len(adv), 4)
         s = Search(fn, VetMonitor(fn, adv, ("entries_conflict", "token_conflicts")), budget=2000000)
         v = s.run(0)
@@ -132,7 +154,7 @@ def rule_g1(ctx, F):
         else:
             ctx.bad("G1", "states_conflict:every-consumed-entry-is-vetted", "states_conflict: %s at %s — two states could be merged although an entry of one was never compared" % (v.msg, fn.loc(v.pt)),
                     {"path": s.render_path(v.path)[-8:]})
-        text_gate(ctx, "G1", fn, const_ret_points(fn, 0), [("no-conflict only when both entry lists are exhausted", [(("i", "<"), False), (("(j <",), False), (("j", "<"), False)])], accept_desc="`return false`")
+        text_gate(ctx, "G1", fn, const_ret_points(fn, 0), [("no-conflict only when both entry lists are exhausted", [((" < ",), False)])], accept_desc="`return false`")
         rt = const_ret_points(fn, 1)
         ctx.floor("`return true` sites in states_conflict", len(rt), 3)
     fn = find_fn(ctx, F, "Minimizer::token_conflicts", "G1")
@@ -211,12 +233,77 @@ def rule_g1(ctx, F):
         text_gate(ctx, "G1", fn, m, [("state merging only under OptLevel::MergeStates", [(("OptLevel", "contains"), True)])], accept_desc="merge_compatible_states")
 
 
+def index_stores(fn, container, value):
+    """Points storing the constant `value` through `container[...]` (IndexMut) in MIR."""
+    out = []
+    for pt, e in fn.points():
+        for n in own_walk(e):
+            if n.get("k") == "assign" and strip(n["r"]).get("k") == "int" and strip(n["r"]).get("v") == value:
+                l = strip(n["l"])
+                if l.get("k") == "un" and l["op"] == "*" and strip(l["e"]).get("k") == "ref":
+                    d = fn.single_def(strip(l["e"])["id"])
+                    if d is not None and strip(d).get("k") == "call" and "index_mut" in (strip(d).get("fn") or "") + (strip(d).get("tfn") or ""):
+                        from rsrules import trace_root
+                        if trace_root(fn, strip(d)["a"][0]) == container:
+                            out.append(pt)
+    return out
+
+
+def rule_g2(ctx, F):
+    """dedup::split_state_id_groups: the scratch membership flags of a split are cleared before the
+    split-off states are published as a new group (they are examined again later in the same call)."""
+    fn = find_fn(ctx, F, "dedup::split_state_id_groups", "G2")
+    if not fn:
+        return
+    sets = index_stores(fn, "is_split", 1)
+    clears = index_stores(fn, "is_split", 0)
+    publish = [pt for pt, c, d in calls_named(fn, "Vec", "::push") if "Vec<u32>" in (c.get("targs") or "")]
+    ctx.floor("is_split[..] = true stores", len(sets), 1)
+    if not clears:
+        ctx.bad("G2", "split_state_id_groups:flags-cleared-before-publish", "split_state_id_groups sets is_split[..] = true but never clears it: states split off from a group are skipped when their new group is "
+                "visited later in the same call, so mutually incompatible states stay merged", {"function": fn.name})
+        return
+    if not publish:
+        ctx.bad("G2", "split_state_id_groups:publish-anchor", "push of the split-off group not found")
+        return
+    retain = [pt for pt, c, d in calls_named(fn, "::retain")]
+    # the clearing loop runs to exhaustion before the publish (a zero-iteration pass is vacuous)
+    from rsrules import TextGate
+    sg = Search(fn, TextGate(fn, publish, [(("::next", "=None"), True)], est_pts=()), budget=2000000)
+    cl_blocks = {pt[0] for pt in clears}
+    # the loop whose `next() = None` edge precedes the publish must be the one that contains the clear
+    head = None
+    for b in fn.blocks.values():
+        if is_loop_next_switch(fn, b.id):
+            body = [e.to for e in b.succs if isinstance(e.lab, dict) and e.lab.get("name") == "Some"]
+            if body and cl_blocks & reachable_blocks(fn, body[0], avoid_edges={(b.id, e.idx) for e in b.succs}):
+                head = b.id
+    class ClearLoop(Monitor):
+        def elem(self, m, pt, e, s):
+            if pt in publish and not m:
+                return Viol("the split-off group is appended without the clearing loop having run", pt)
+            return m
+
+        def edge(self, m, bid, edge, cond, truth, s):
+            if bid == head and isinstance(edge.lab, dict) and edge.lab.get("name") == "None":
+                return True
+            return m
+    s2 = Search(fn, ClearLoop(), budget=2000000)
+    v = s2.run(False) if head is not None else Viol("no loop containing `is_split[..] = false` found")
+    if v is None:
+        ctx.ok("G2", "split_state_id_groups:flags-cleared-before-publish", "the loop that clears the membership flags of the split-off states runs to exhaustion before the new group is appended (it is examined again later in this call)")
+    else:
+        ctx.bad("G2", "split_state_id_groups:flags-cleared-before-publish", "split_state_id_groups: %s" % v.msg, {"path": s2.render_path(v.path)[-6:] if v.path else []})
+    text_gate(ctx, "G2", fn, sets, [("a state is split off only when the predicate says it conflicts", [(("should_split",), True), (("call_mut",), True), (("FnMut",), True)])], accept_desc="marking a state as split")
+
+
 def run(ctx):
     ctx.config = "rust"
     F = ctx.extract.rsfacts(CRATE)
     ctx.analysed["rust_functions"] = len(F.fn_list)
     rule_w1(ctx, F)
     rule_g1(ctx, F)
+    rule_g2(ctx, F)
     return ctx.finish(
         "Determinism scan and merge-licence gates over rustc MIR of tree-sitter-generate: no iteration over RandomState-hashed containers, no clock/thread/pid/env/random source, no pointer→integer casts; "
         "states_conflict vets every entry it consumes, token_conflicts/entries_conflict say `no conflict` only after all their tests, merging only under OptLevel::MergeStates. "
